@@ -345,6 +345,28 @@ class Ctx:
         self.pc.append(c if d else z3.Not(c))
         return d
 
+    def concretize(self, term, candidates=(0, 1, 2, 3)):
+        """If the path condition forces the integer term to one small constant, return it (else None).
+        Sound: the constant is only used when `pc |= term == c` was proved."""
+        c0 = conc(term)
+        if c0 is not None:
+            return c0
+        for c in candidates:
+            s = z3.Solver()
+            s.set("timeout", 2000)
+            s.add(*self.pc)
+            s.add(term == c)
+            if s.check() != z3.sat:
+                continue
+            s2 = z3.Solver()
+            s2.set("timeout", 3000)
+            s2.add(*self.pc)
+            s2.add(term != c)
+            if s2.check() == z3.unsat:
+                return c
+            return None
+        return None
+
     def choice(self, n, label=""):
         """Non-deterministic engine-level choice among n alternatives (loop: iteration vs exit)."""
         i = len(self.taken)
